@@ -101,6 +101,7 @@ type mitm struct {
 	replay  [2][][]byte     // frames recorded from an earlier session
 	rec     [2][][]byte     // handshake frames seen in this session (originals)
 	swapIn  []byte          // the other session's frame, waiting for ours to be sent
+	quart   int             // flip: quarter of the frame that was hit (0..3), for coverage probes
 	fired   bool
 	note    string // what exactly was done (lengths may depend on crypto randomness: trace only, never signature)
 	trouble string
@@ -460,6 +461,7 @@ func (m *mitm) flip(f []byte, idx int) ([]byte, string) {
 	if m.framing == frMSS || (m.framing == frNoise && !e.varLen) {
 		p := e.pos % len(g)
 		g[p] ^= e.mask
+		m.quart = 4 * p / len(g)
 		return g, fmt.Sprintf("flipped byte %d of %d (mask %02x)", p, len(g), e.mask)
 	}
 	hdr, body := m.split(f)
@@ -502,6 +504,7 @@ func (m *mitm) flip(f []byte, idx int) ([]byte, string) {
 		p, mask = mlkemSafe(body, p, mask)
 	}
 	g[hdr+p] ^= mask
+	m.quart = 4 * (hdr + p) / len(g)
 	return g, fmt.Sprintf("flipped body byte %d of %d (mask %02x)", p, len(body), mask)
 }
 
